@@ -1639,8 +1639,22 @@ def _check_frame(ex, st, c: Contract, env):
         return
     old_heap = st.old[0]
     declared = set(c.modifies)
+    # objects a declared 'param.field' points to (before or after the call) may change: aliases of them are in the frame
+    allowed = set()
+    for m in declared:
+        if "." in m:
+            base, attr = m.split(".", 1)
+            b = env.get(base)
+            if isinstance(b, Ref):
+                for heap in (old_heap, st.heap):
+                    o = heap.get(b.addr)
+                    fv = o.fields.get(attr) if isinstance(o, Obj) else None
+                    if isinstance(fv, Ref):
+                        allowed.add(fv.addr)
+        elif isinstance(env.get(m), Ref):
+            allowed.add(env[m].addr)
     for name, v in env.items():
-        if not isinstance(v, Ref) or name in declared:
+        if not isinstance(v, Ref) or name in declared or v.addr in allowed:
             continue
         o_new, o_old = st.heap.get(v.addr), old_heap.get(v.addr)
         if isinstance(o_new, Obj) and isinstance(o_old, Obj):
